@@ -167,11 +167,13 @@ func parseRegistration(p *packages.Package, call *ast.CallExpr, r *Registration)
 	walk(cl)
 }
 
+// constNonEmpty: a constant string must be non-blank; a non-constant expression (fmt.Sprintf …) is
+// taken as present here and its emptiness is judged by the run-time dump (F2).
 func constNonEmpty(p *packages.Package, e ast.Expr) bool {
 	if tv, ok := p.TypesInfo.Types[e]; ok && tv.Value != nil && tv.Value.Kind() == constant.String {
 		return strings.TrimSpace(constant.StringVal(tv.Value)) != ""
 	}
-	return false
+	return true
 }
 
 // blankImports records the blank imports of v3/zlint.go and every directory
